@@ -24,6 +24,8 @@ structure Verdict where
   oracleOk : Bool
   /-- which part of the oracle rejected the implementation output (diagnostic only) -/
   why : String := ""
+  /-- the definitions generated from the source were evaluated on this line as well (third voice) -/
+  srcChecked : Bool := false
 
 abbrev Handler := Cfg → String → Array Nat → List String → Option Verdict
 
@@ -88,6 +90,7 @@ structure Stats where
   dis : Nat := 0
   fail : Nat := 0
   unknown : Nat := 0
+  src : Nat := 0
   hist : Std.HashMap String Nat := {}
   samples : Std.HashMap String Nat := {}
 
@@ -126,6 +129,7 @@ partial def loop {σ : Type} (handler : SHandler σ) (h : IO.FS.Stream) (out : I
           { st with lines := n,
                     dis := st.dis + (if disagree then 1 else 0),
                     fail := st.fail + (if v.oracleOk then 0 else 1),
+                    src := st.src + (if v.srcChecked then 1 else 0),
                     hist := hist, samples := samples } ds
 
 def run {σ : Type} (handler : SHandler σ) (init : σ) : IO UInt32 := do
@@ -134,7 +138,7 @@ def run {σ : Type} (handler : SHandler σ) (init : σ) : IO UInt32 := do
   let st ← loop handler stdin stdout { ovf := true } {} init
   for (k, v) in st.hist.toList do
     stdout.putStrLn s!"H {k} {v}"
-  stdout.putStrLn s!"S lines={st.lines} dis={st.dis} fail={st.fail} unknown={st.unknown}"
+  stdout.putStrLn s!"S lines={st.lines} dis={st.dis} fail={st.fail} unknown={st.unknown} src={st.src}"
   return 0
 
 end X86.Driver
